@@ -236,6 +236,11 @@ func (s *Syncer[H]) findTailHeight(ctx context.Context, oldTail, head H) (uint64
 		// current and expected tails are far from each other
 		// estimate with head for higher accuracy
 		headersToStore := uint64(window / s.Params.blockTime) //nolint:gosec
+		if headersToStore >= head.Height() {
+			// by estimation the window covers the whole chain (e.g. a slow or halted chain),
+			// so there is nothing to prune: stick to the current tail
+			return oldTail.Height(), nil
+		}
 		estimatedTailHeight = head.Height() - headersToStore
 	case tailTimeDiff < window:
 		// tails are close
